@@ -6,6 +6,10 @@ HERE = os.path.dirname(os.path.dirname(os.path.abspath(__file__)))
 
 # id -> (technique, level text, level note, design ref)
 CLAIMED = {
+ "C01": ("runtime monitoring of process liveness, per-request CPU-budget watchdog and the parser-recover hook (H2) under hostile content / annotation / configuration / message-sequence workloads",
+         "Exploration by runtime monitoring: ~900 (quick) to ~27 000 (thorough) cases, each on its own server child process: hostile file contents (corpus + generated programs, byte/token mutation, truncation, deep nesting, long lines) with request sweeps over every addressable position of small files; cyclic/corrupted annotation graphs incl. config-file mode; malformed init options, luahelper.json and later configuration changes; conformant random message walks mixing every notification and request kind. A death only counts when it reproduces on a fresh process; 'never hangs' is decided as 'every request answered within 60 CPU-seconds with at most 4 requests in flight' (a wall-clock timeout is inconclusive, never a violation).",
+         "Trusts the driver's crash classification (stderr) and /proc CPU accounting. Unbounded liveness cannot be decided by a finite run; the CPU bound replaces it. Only inputs the generators reach are covered.",
+         "DESIGN.md 3/C01"),
  "C02": ("online monitor: hooked document cache (H1) vs reference text-buffer model after every notification",
          "Exploration by runtime monitoring: thousands of generated edit histories (6 alphabets x 4 line-ending styles, range/multi-change/full edits, save, close/reopen) are driven through the real server process; after every step the cached bytes read through hook H1 under the server's own request mutex are compared byte-for-byte with an independent LSP text-buffer model. Held means held on the histories run, not for all histories.",
          "Trusts hook H1 (verif tag) to return the cache the handlers use, the harness's R-text model of LSP positions, and jrpc2's notification ordering (fence).",
